@@ -1,13 +1,13 @@
 //! Check definitions: which scenario families and which oracles decide each property.
 
-use crate::adversary::{Hostile, Rewriter};
+use crate::adversary::{ConnectedAttacker, Hostile, Rewriter};
 use crate::gen::*;
 use crate::gen_b::*;
 use crate::oracle_conn::*;
 use crate::oracle_rate::RfcOracle;
 use crate::oracle_time::*;
 use crate::oracle_transport::*;
-use crate::oracle_twin::{twin_run, AckForger};
+use crate::oracle_twin::{twin_events_run, twin_run, AckForger};
 use crate::oracle_wire::*;
 use crate::plan::*;
 use crate::rng::Rng;
@@ -105,6 +105,65 @@ fn c01_gen_small(seed: u64, run: u64, thorough: bool) -> Plan {
     let sc = c01_sc(&mut r, thorough, false, true);
     world_a_general("C01", "a_small_windows", seed, run, &sc, false)
 }
+/// Window-edge stress: tiny windows, two or three channels, mostly Persistent and Reliable
+/// packets, moderate loss: the window is full most of the time, held back by a missing Reliable
+/// packet on one channel while other channels deliver and skip around it.
+fn c01_gen_edge(seed: u64, run: u64, thorough: bool) -> Plan {
+    let mut r = Rng::keyed(&[seed, run, 0xc01e]);
+    let horizon = r.range(10, if thorough { 60 } else { 30 }) * 1_000_000;
+    let sc = AScenario {
+        near_wrap: run % 2 == 0,
+        small_windows: true,
+        packets: r.range(150, if thorough { 2000 } else { 700 }),
+        send_window_us: horizon / 2,
+        fault_until_us: horizon,
+        horizon_us: horizon,
+        allow_flips: false,
+        allow_stalls: false,
+        phases: 1,
+    };
+    let mut plan = world_a_general("C01", "a_window_edge", seed, run, &sc, false);
+    let k = r.range(1, 4);
+    for e in plan.endpoints.iter_mut() {
+        if let EndpointKind::Hc { spec, .. } = &mut e.kind {
+            spec.tx_packet_window_size = 1 << k;
+            spec.rx_packet_window_size = 1 << k;
+            spec.tx_frame_window_size = spec.tx_frame_window_size.max(16);
+            spec.rx_frame_window_size = spec.rx_frame_window_size.max(16);
+            spec.tx_bandwidth_limit = spec.tx_bandwidth_limit.max(200_000);
+            spec.tx_alloc_limit = spec.tx_alloc_limit.max(100_000);
+            spec.rx_alloc_limit = spec.rx_alloc_limit.max(100_000);
+        }
+    }
+    let chans = r.range(2, 3) as u8;
+    for t in plan.timeline.iter_mut() {
+        match &mut t.op {
+            Op::Send { ch, mode, len, .. } => {
+                if *len >= 12 {
+                    *ch %= chans;
+                    *mode = *r.pick(&[MODE_PERSISTENT, MODE_PERSISTENT, MODE_RELIABLE, MODE_UNRELIABLE]);
+                    *len = (*len).min(1400);
+                }
+            }
+            Op::Link { rule, .. } => {
+                rule.drop_p = *r.pick(&[0.1, 0.2, 0.3]);
+                rule.blackout = false;
+                rule.drop_types = 0;
+                rule.latency_us = rule.latency_us.min(30_000);
+            }
+            _ => (),
+        }
+    }
+    plan.params.insert("short_ch".into(), (plan.param("short_ch", 0.0) as u8 % chans) as f64);
+    for t in plan.timeline.iter_mut() {
+        if let Op::Send { ch, len, .. } = &mut t.op {
+            if *len < 12 {
+                *ch = plan.params["short_ch"] as u8;
+            }
+        }
+    }
+    plan
+}
 fn c01_gen_b(seed: u64, run: u64, thorough: bool) -> Plan {
     let mut r = Rng::keyed(&[seed, run, 0xb01]);
     let horizon = r.range(8, if thorough { 60 } else { 30 }) * 1_000_000;
@@ -137,13 +196,15 @@ pub fn c01() -> CheckDef {
                 what: "same, initial frame and packet ids within two windows of the 2^32 / 2^20 wrap-around and enough traffic to cross it" },
             Family { name: "a_small_windows", world: "A", weight: 3, gen: c01_gen_small, oracles: c01_oracles, adversary: None, keep_workload: false, custom: None,
                 what: "same, window sizes 1..64 so that windows fill and resynchronise constantly" },
+            Family { name: "a_window_edge", world: "A", weight: 3, gen: c01_gen_edge, oracles: c01_oracles, adversary: None, keep_workload: false, custom: None,
+                what: "packet windows of 2-16, two or three channels, mostly Persistent/Reliable packets, 10-30 % loss: the window is full most of the time and channels deliver and skip around a missing Reliable packet" },
             Family { name: "b_mixed", world: "B", weight: 2, gen: c01_gen_b, oracles: c01_oracles, adversary: None, keep_workload: false, custom: None,
                 what: "real Client/Server over the simulated socket, 1-3 clients, both directions, default windows, handshake nonces steered to within 6000 of the 2^32 / 2^20 wrap-around in half of the runs, drop/dup/reorder/flips" },
         ],
         panic_is_violation: no_panics,
         hang_is_violation: false,
-        quick_runs: 2400,
-        thorough_runs: 60_000,
+        quick_runs: 9000,
+        thorough_runs: 150_000,
         rule: "one case = one simulated run (plan generated from (seed, run index); family = run index mod weights); distinct = distinct run digest (hash of every API call, wire datagram, event and probe); non-trivial = at least 10 packets delivered to an application",
         real_code: REAL_A,
         stubs: STUB_A,
@@ -304,6 +365,82 @@ fn c03_gen_genuine(seed: u64, run: u64, thorough: bool) -> Plan {
     plan
 }
 
+
+/// World B: a server that also serves genuine echo clients is attacked from raw sockets that
+/// complete the handshake by hand; afterwards the genuine clients must still be served.
+fn c03_gen_b(seed: u64, run: u64, thorough: bool) -> Plan {
+    let mut r = Rng::keyed(&[seed, run, 0xb03]);
+    let mut plan = Plan::new("C03", "b_connected_attacker", seed, run);
+    plan.fate_seed = Some(crate::rng::key(&[seed, run, 0xfa7e]));
+    let mut scfg = sample_cfg(&mut r);
+    scfg.active_timeout_ms = 60_000;
+    scfg.max_packet_size = scfg.max_packet_size.min(20_000);
+    let base_server = scfg.clone();
+    let n_clients = r.range(1, 2) as usize;
+    let n_raw = r.range(1, 3) as usize;
+    let topo = topology(&mut plan, &mut r, n_clients, n_raw, scfg, 64, 32, |r, _| {
+        let mut c = sample_cfg(r);
+        c.active_timeout_ms = 60_000;
+        let mut s = base_server.clone();
+        make_compatible(&mut c, &mut s);
+        c.max_packet_size = c.max_packet_size.min(base_server.max_receive_alloc).min(20_000);
+        c.max_receive_alloc = c.max_receive_alloc.max(base_server.max_packet_size);
+        c
+    });
+    plan.endpoints[0].echo = true;
+    plan.push(0, 0, Op::Create { ep: 0 });
+    let latency = r.range(100, 50_000);
+    plan.push(0, 2, Op::Link { from: None, to: None, rule: clean_rule(latency) });
+    let hostile_until = r.range(3, if thorough { 25 } else { 10 }) * 1_000_000;
+    let horizon = hostile_until + 20_000_000;
+    for &raw in topo.raws.iter() {
+        plan.push(0, 1, Op::Create { ep: raw });
+        plan.push(1000, 5, Op::StepEvery { ep: raw, period_us: 500_000, until_us: hostile_until + 1_000_000 });
+    }
+    let mut tag = 0u32;
+    for &c in topo.clients.iter() {
+        plan.push(r.below(200_000), 1, Op::Create { ep: c });
+        let period = r.range(5_000, 60_000);
+        plan.push(300_000 + r.below(period), r.u32() | 1, Op::StepEvery { ep: c, period_us: period, until_us: horizon });
+        // genuine traffic during the attack
+        for _ in 0..r.range(5, 60) {
+            plan.push(r.range(500_000, hostile_until), 0x4000_0000 + tag, Op::Send { ep: c, to: None, ch: r.below(4) as u8, mode: r.below(4) as u8, len: r.range(12, 3000) as u32, tag });
+            tag += 1;
+        }
+        // after the hostile phase: a fresh exchange must complete
+        let mut ptag = PROBE_TAG + c as u32 * 100;
+        for k in 0..3u64 {
+            plan.push(hostile_until + 500_000 + k * 300_000, 0x4000_0000 + ptag, Op::Send { ep: c, to: None, ch: 1, mode: MODE_RELIABLE, len: r.range(12, 1500) as u32, tag: ptag });
+            ptag += 1;
+        }
+    }
+    let mut cad = Cadence::sample(&mut r);
+    if run % 4 == 0 {
+        cad.period_us = 0;
+    }
+    cad.stall_p = 0.0;
+    cad.steps(&mut r, &mut plan, 0, 0, hostile_until, if cad.period_us == 0 { 600 } else { 6000 }, false);
+    let period = cad.period_us.clamp(1000, 50_000);
+    plan.push(hostile_until, r.u32() | 1, Op::StepEvery { ep: 0, period_us: period, until_us: horizon });
+    plan.push(hostile_until, 3, Op::Mark { name: "heal".into() });
+    plan.adversary = "connected_attacker".into();
+    plan.params.insert("hostile".into(), 1.0);
+    plan.params.insert("hostile_until_us".into(), hostile_until as f64);
+    plan.params.insert("hostile_max".into(), r.range(50, 1500) as f64);
+    plan.params.insert("hostile_big".into(), (run % 16 == 3) as u64 as f64);
+    plan.params.insert("short_ch".into(), 63.0);
+    plan.end_us = horizon;
+    plan.sort();
+    plan
+}
+fn c03_adv_b(plan: &Plan) -> Option<Box<dyn Adversary>> {
+    Some(Box::new(ConnectedAttacker::new(plan)))
+}
+fn c03_oracles_b(_plan: &Plan) -> Vec<Box<dyn Oracle>> {
+    // "keeps serving its other connections": the genuine clients' probes after the attack arrive
+    with_states(vec![Box::new(RecoveryOracle::new("C03"))])
+}
+
 pub fn c03() -> CheckDef {
     CheckDef {
         property: "C03",
@@ -312,6 +449,8 @@ pub fn c03() -> CheckDef {
                 what: "victim half connection vs a connected hostile peer: CRC-valid data/sync/ack frames with boundary, near-valid (computed from the victim's own frames) and random fields, fragment counts up to 65535, handshake/disconnect frames, random bytes, replays; interleaved with send/step/flush at arbitrary times incl. 0 us spacing" },
             Family { name: "a_hostile_mitm", world: "A", weight: 3, gen: c03_gen_mitm, oracles: states_only, adversary: Some(c03_adv_mitm), keep_workload: false, custom: None,
                 what: "genuine pair under faults plus a hostile middlebox injecting crafted frames at both ends" },
+            Family { name: "b_connected_attacker", world: "B", weight: 3, gen: c03_gen_b, oracles: c03_oracles_b, adversary: Some(c03_adv_b), keep_workload: true, custom: Some(twin_events_run),
+                what: "real Server with 1-2 genuine clients (echo traffic) attacked from 1-3 raw sockets: most complete the handshake by hand (SYN, read the SYN-ACK, return the nonce) and then send crafted data/sync/ack/handshake/disconnect frames computed from what the server tells them; the others send arbitrary frames; twin run without the attacker's datagrams: the genuine endpoints' event streams (Connect / Receive with payload / Disconnect / Error, with their times) must be identical, i.e. offending input is discarded and the other connections keep being served exactly as before" },
             Family { name: "a_genuine", world: "A", weight: 2, gen: c03_gen_genuine, oracles: states_only, adversary: None, keep_workload: false, custom: None,
                 what: "genuine pair only: loss, blackouts, delay, stalls (panics and hangs reachable without any forged frame)" },
         ],
@@ -320,8 +459,8 @@ pub fn c03() -> CheckDef {
         quick_runs: 6000,
         thorough_runs: 300_000,
         rule: "one case = one simulated run; oracle = no panic located in uflow and every call returns (wall-clock watchdog, confirmed in a child process under an alarm); distinct = distinct run digest; non-trivial = every run (all of them deliver hostile or faulty traffic)",
-        real_code: REAL_A,
-        stubs: STUB_A,
+        real_code: "World A families: HalfConnection and below; World B family: Client, Server, RemoteClient, event queue, UdpFrameSink and everything below",
+        stubs: "clock (H2), rand (H3), UDP socket (H4); Client/Server glue mirrored by the harness in World A only",
         assumptions: vec![
             "simulation profile = release + debug assertions + overflow checks: a failing debug_assert or arithmetic overflow inside uflow counts as a panic (debug builds of applications would hit it)",
             "the hostile peer cannot guess 32-bit handshake nonces it never saw; as a connected peer it knows the starting sequence numbers",
@@ -732,7 +871,7 @@ pub fn c12() -> CheckDef {
         stubs: STUB_A,
         assumptions: vec![
             "the retransmit-until-acknowledged half is decided as bounded liveness by C02 (Reliable) and by quiescence (Persistent): this check decides the at-most-once / never-again clauses on every emission",
-            "'acknowledgement processed' and 'receiver moved past' are taken from the trace taps FrameAcked and PacketBaseAdvanced; an emission in a later call than the tap is a violation",
+            "'acknowledgement processed' is taken from the trace tap FrameAcked; 'receiver moved past' from the ack frames the sender read (their packet window base, validated against what was sent), not from the sender's own bookkeeping; an emission in a later call is a violation",
         ],
     }
 }
